@@ -230,12 +230,14 @@ func mutate(o *optSet, base *bEntry, kind string, r *hx.Rng, so [][32]byte) *bEn
 	return e
 }
 
-// recReader is the entropy source: it records what it hands out and can fail.
+// recReader is the entropy source: it records the byte stream it hands out, can deliver it in
+// small pieces (a legal io.Reader) and can fail.
 type recReader struct {
-	mode    string // random | zero | ones | failN | shortN
+	mode    string // random | zero | ones
 	rng     *hx.Rng
-	reads   [][]byte
+	stream  []byte // everything delivered so far
 	nread   int
+	piece   int // > 0: at most this many bytes per Read
 	failAt  int
 	shortAt int
 }
@@ -249,6 +251,9 @@ func (rr *recReader) Read(p []byte) (int, error) {
 	if rr.shortAt == rr.nread {
 		n = len(p) / 2
 	}
+	if rr.piece > 0 && n > rr.piece {
+		n = rr.piece
+	}
 	switch rr.mode {
 	case "zero":
 		for i := range p[:n] {
@@ -261,7 +266,7 @@ func (rr *recReader) Read(p []byte) (int, error) {
 	default:
 		rr.rng.Read(p[:n])
 	}
-	rr.reads = append(rr.reads, append([]byte{}, p[:n]...))
+	rr.stream = append(rr.stream, p[:n]...)
 	if rr.shortAt == rr.nread {
 		return n, io.EOF
 	}
@@ -324,8 +329,10 @@ func (sh *shard) ref(o *optSet, e *bEntry) int {
 		R = hx.PT{Known: true, K: big.NewInt(0), Kind: "badlen"}
 	}
 	eq8 := false
+	if sigLenOk {
+		copy(S, e.sig[32:]) // the scalar half is examined (S < L) before the key is looked at
+	}
 	if sigLenOk && keyLenOk {
-		copy(S, e.sig[32:])
 		h = hx.HRAM(o.variant, o.ctx, e.sig[:32], e.key, e.msg)
 		if A.Dec && R.Dec && !(A.Known && R.Known) {
 			eq8 = hx.Eq8(refmodel.FromLE(S), refmodel.FromLE(h[:]), A.Pt, R.Pt)
@@ -382,6 +389,9 @@ func runBatchCall(sh *shard, o *optSet, zip bool, entries []*bEntry, entropy str
 		rr.mode, rr.failAt = "random", int(entropy[4]-'0')
 	case len(entropy) == 6 && entropy[:5] == "short":
 		rr.mode, rr.shortAt = "random", int(entropy[5]-'0')
+	case len(entropy) > 5 && entropy[:5] == "piece":
+		rr.mode = "random"
+		fmt.Sscanf(entropy[5:], "%d", &rr.piece)
 	}
 	var hooks [][]interface{}
 	hookMu.Lock()
@@ -407,27 +417,29 @@ func runBatchCall(sh *shard, o *optSet, zip bool, entries []*bEntry, entropy str
 	singles := []bool{}
 	refs := []int{}
 	kinds := []string{}
-	chunkReads := rr.reads
+	// the randomisers as the specification defines them: chunk c consumes the next 16*batchSize
+	// bytes of the entropy STREAM (however many Read calls deliver them)
+	stream := rr.stream
 	z := make([][]int, 0, n)
 	entropyOk := []bool{}
 	{
-		num, c := n, 0
+		num, pos := n, 0
 		for num >= 4 {
 			bs := 64
 			if num < 64 {
 				bs = num
 			}
-			okc := c < len(chunkReads) && len(chunkReads[c]) == 16*bs
+			okc := pos+16*bs <= len(stream)
 			entropyOk = append(entropyOk, okc)
 			for i := 0; i < bs; i++ {
 				if okc {
-					z = append(z, hx.Ints(chunkReads[c][16*i:16*i+16]))
+					z = append(z, hx.Ints(stream[pos+16*i:pos+16*i+16]))
 				} else {
 					z = append(z, hx.Ints(make([]byte, 16)))
 				}
 			}
+			pos += 16 * bs
 			num -= bs
-			c++
 			if !okc {
 				break
 			}
@@ -537,7 +549,24 @@ func runBatch() {
 	var selected []job
 	for i, c := range cases {
 		nb := len(c.Bad)
-		isErr := c.Variant != "pure" && c.Variant != "ctx" && c.Variant != "ph" || (len(c.Entropy) > 4 && c.Entropy != "random")
+		isErr := c.Variant != "pure" && c.Variant != "ctx" && c.Variant != "ph" || (len(c.Entropy) > 4 && c.Entropy != "random" && c.Entropy[:4] != "piec")
+		chunky := len(c.Entropy) > 5 && c.Entropy[:5] == "piece"
+		kinds := map[string]bool{}
+		for _, b := range c.Bad {
+			kinds[b.Kind] = true
+		}
+		only := func(allowed ...string) bool {
+			for k := range kinds {
+				ok := false
+				for _, a := range allowed {
+					ok = ok || a == k
+				}
+				if !ok {
+					return false
+				}
+			}
+			return true
+		}
 		var num, den uint32 = 1, 1
 		want := true
 		switch prop {
@@ -545,16 +574,30 @@ func runBatch() {
 			switch {
 			case isErr:
 				num, den = 1, 1
+			case chunky:
+				num, den = 1, 4
 			case nb == 0:
 				num, den = 1, 40
 			case c.N <= 5:
-				num, den = 1, 5
+				num, den = 1, 6
 			default:
 				num, den = 1, 50
 			}
-		case "C17": // all-valid batches: the equation itself must accept
-			want = nb == 0 && !isErr
+		case "C17": // all-valid batches (incl. mixed-order keys / R, which are valid): the equation itself must accept
+			want = !isErr && only("mixedA", "mixedR")
 			num, den = 1, 3
+			if nb > 0 {
+				num, den = 1, 12
+			}
+		case "C04": // S >= L at every position of every chunking, all four verifier modes
+			want = !isErr && nb > 0 && only("SplusL", "SplusLbad", "flipS", "wrongMsg", "smallA") && (kinds["SplusL"] || kinds["SplusLbad"])
+			num, den = 1, 8
+		case "C05": // ZIP-215 batches with small-order entries, alone and next to other failures
+			want = !isErr && c.Zip && (kinds["smallA"] || kinds["smallR"] || kinds["mixedA"] || kinds["mixedR"])
+			num, den = 1, 14
+		case "C09": // small-order / mixed-order / undecodable key and R at every position of every chunking
+			want = !isErr && nb > 0 && (kinds["smallA"] || kinds["smallR"] || kinds["mixedA"] || kinds["mixedR"] || kinds["undecA"] || kinds["undecR"])
+			num, den = 1, 20
 		case "C13":
 			want = isErr || nb > 0 && c.N <= 5
 			num, den = 1, 3
